@@ -57,3 +57,10 @@ Example mk_1 : mk 10 = GOk (mk_pair 10 [9; 4]). Proof. run. Qed.
 (* rangeInt 14 0 *)
 Example rangeInt_1 : rangeInt 4 = GOk 14. Proof. run. Qed.
 Example rangeInt_2 : rangeInt 0 = GOk 0. Proof. run. Qed.
+(* lines "ab\ncd" 4 = (2, 2); off beyond the string panics : strings as bytes, tuple-carrying count loop *)
+Example lines_1 : lines [97; 98; 10; 99; 100] 4 = GOk (2, 2). Proof. run. Qed.
+Example lines_2 : lines [97; 98] 3 = GPanic. Proof. run. Qed.
+(* greet "bob" = "hi bob" *)
+Example greet_1 : greet [98; 111; 98] = GOk [104; 105; 32; 98; 111; 98]. Proof. run. Qed.
+(* anyTrue [true false true] = 5 : []bool *)
+Example anyTrue_1 : anyTrue [true; false; true] = GOk 5. Proof. run. Qed.
